@@ -745,6 +745,15 @@ func (r *streamRun) decodeVia(format string, rd io.Reader) (*CfgDoc, *captureSou
 
 func runStream(sc *Scenario, res *Result, keepLog bool) {
 	st := sc.Stream
+	// a replay file drops empty lists (omitempty): the flags bring them back
+	for _, v := range []*DocVal{&st.Val, &st.Def} {
+		if v.EmptyTags && v.Tags == nil {
+			v.Tags = []string{}
+		}
+		if v.EmptyNums && v.Nums == nil {
+			v.Nums = []int{}
+		}
+	}
 	r := &streamRun{sc: sc, probes: map[string]int{}}
 	rnd := rand.New(rand.NewPCG(sc.Seed, 0xfa17))
 	want := st.Val.expected(&st.Def)
